@@ -237,12 +237,15 @@ PROPS = {
 # scaled counters are raised by half that factor.
 QUICK_SCALE = {"C01": 4, "C02": 8, "C03": 10, "C04": 8, "C05": 5, "C06": 5, "C07": 5, "C08": 10, "C09": 10, "C10": 5,
                "C11": 5, "C12": 10, "C13": 1, "C14": 5, "C15": 5, "C16": 5, "C17": 5, "C18": 8}
+# thorough tier: sized so that each property takes roughly 1-5 minutes on 16 cores
+THOROUGH_SCALE = {"C01": 80, "C02": 64, "C03": 800, "C04": 200, "C05": 150, "C06": 100, "C07": 80, "C08": 300, "C09": 120,
+                  "C10": 40, "C11": 120, "C12": 800, "C13": 300, "C14": 150, "C15": 80, "C16": 60, "C17": 300, "C18": 64}
 UNSCALED = {"exh3_blocks", "exh3_orders", "domains_exhaustive", "shapes_enumerated", "edge_cases", "default_table_growths",
             "big_rederivations", "triples", "pairs", "lattice_pairs", "field_sub_pairs"}
 for _pid, _k in QUICK_SCALE.items():
     _c = PROPS[_pid]
     _c.setdefault("scale", {})["quick"] = _k
-    _c["scale"]["thorough"] = max(_c["scale"].get("thorough", 1), _k * 8)
+    _c["scale"]["thorough"] = THOROUGH_SCALE.get(_pid, _k * 8)
     if _k > 1:
         _f = _c.get("floors", {}).get("quick", {})
         for _name in list(_f):
